@@ -159,16 +159,21 @@ def c17_crash_cases(cases, repo, max_crashes=6):
         if "panic" not in output and "fatal error" not in output:
             raise Inconclusive("C17 replay (serial) failed without a crash report\n" + output[-3000:])
         if len(open_ids) != 1:
-            # the process died between two cases (a goroutine left behind by an earlier case): keep what is complete, go on
+            # the process died between two cases (a goroutine left behind by the case just closed): the observation goes to the
+            # last case that was closed; as always it only counts if the second run reproduces it
             unattributed += 1
-            if unattributed > 2:
+            closed = [k for k in idx if k not in open_ids]
+            if unattributed > 4 or not closed:
                 raise Inconclusive("C17 replay (serial): the process keeps dying outside any case\n" + output[-3000:])
-            for k, (c, l) in idx.items():
-                if k not in open_ids:
-                    lines += l
-            finished = set(idx.keys()) - set(open_ids)
-            done += [c for c in todo if c["id"] in finished]
-            todo = [c for c in todo if c["id"] not in finished]
+            last = closed[-1]
+            for k in closed:
+                l = idx[k][1]
+                lines += (l[:-1] + ['{"ev":"died","where":"process, just after the case was closed"}', l[-1]]) if k == last else l
+            done += [c for c in todo if c["id"] in closed]
+            todo = [c for c in todo if c["id"] not in closed]
+            if crashes >= max_crashes:
+                log("  note: %d process crashes; the remaining %d cases are not replayed" % (crashes, len(todo)))
+                break
             continue
         cid = open_ids[0]
         for k, (c, l) in idx.items():
@@ -261,7 +266,8 @@ def c17(tier, repo=None, only_cases=None):
     for i, c in enumerate(cases):
         c.setdefault("id", "%s-%d" % (c.get("fam", "r"), i))
         names = [k["name"] for k in c["calls"]]
-        repeated_inv = any(t["kind"] == "inv" and names.count(t["name"]) >= 2 for t in c["tools"])
+        repeated_inv = any((t["kind"] == "inv" or (t["kind"] == "both" and c["mode"] == "invoke")) and names.count(t["name"]) >= 2
+                           for t in c["tools"])
         if repeated_inv and "wrap" not in c and rnd.random() < 0.85:
             c["wrap"], c["jsonargs_wanted"] = True, True      # the same utils-built tool decoding several calls at once
         c.setdefault("wrap", rnd.random() < 0.4)     # secondary dimension: tools built with components/tool/utils
